@@ -2284,6 +2284,12 @@ def _contains(token: TokenT, left: object, right: object) -> bool:
         except ValueError as err:
             # An integer with more digits than the interpreter is willing to convert.
             raise LiquidValueError(str(err), token=token) from err
+    if isinstance(left, range):
+        # Membership of a range is arithmetic for an integer. Python compares
+        # anything else with every item, however many there are.
+        if isinstance(right, (float, Decimal)) and right == right // 1:
+            right = int(right)
+        return isinstance(right, int) and right in left
     if isinstance(left, Collection):
         try:
             return right in left
